@@ -575,9 +575,9 @@ void
 	    tries = 0;
 	    extra = (new_len - *prev_len) * lword;
 	    if ( keep_prev ) {
-		if ( StackFull(extra) ) return (NULL);
+		if ( StackFull((type == UCOL ? 2*extra : extra)) ) return (NULL);
 	    } else {
-		while ( StackFull(extra) ) {
+		while ( StackFull((type == UCOL ? 2*extra : extra)) ) {
 		    if ( ++tries > 10 ) return (NULL);
 		    alpha = Reduce(alpha);
 		    new_len = alpha * *prev_len;
